@@ -182,7 +182,10 @@ def h_wellknown(env):
     from betterproto.compile.importing import get_type_reference
     from betterproto.plugin.typing_compiler import DirectImportTypingCompiler
 
-    current = package(env, "cur", 2, 2)
+    special = [None, ["google"], ["google", "api"], ["google", "protobuf", "compiler"], ["google", "protobuf", "compiler", "x"], ["google", "protobufx"], ["x", "google", "protobuf"]]
+    which = env.choose("cur#special", len(special))
+    # a symbolic short package path, or one of the packages around google.protobuf (only google.protobuf itself compiles the well-known types)
+    current = package(env, "cur", 2, 2) if special[which] is None else list(special[which])
     wk = [("Timestamp", "datetime"), ("Duration", "timedelta"), ("Int32Value", "Optional[int]"), ("StringValue", "Optional[str]"), ("BytesValue", "Optional[bytes]"),
           ("BoolValue", "Optional[bool]"), ("DoubleValue", "Optional[float]"), ("Any", None), ("Struct", None)]  # fmt: skip
     name, expect = wk[env.choose("wk", len(wk))]
